@@ -53,4 +53,35 @@ end Outcome
 abbrev Vec (n : Nat) (R : Type) := Fin n → R
 abbrev Mat (n m : Nat) (R : Type) := Fin n → Fin m → R
 
+/-- explicit 1-vector (rows of matrices are vectors too) -/
+def v1 {α : Type} (a : α) : Fin 1 → α := fun i => match i with | 0 => a
+@[simp] theorem v1_0 {α : Type} (a : α) : v1 a 0 = a := rfl
+
+/-- explicit 2-vector (rows of matrices are vectors too) -/
+def v2 {α : Type} (a b : α) : Fin 2 → α := fun i => match i with | 0 => a | 1 => b
+@[simp] theorem v2_0 {α : Type} (a b : α) : v2 a b 0 = a := rfl
+@[simp] theorem v2_1 {α : Type} (a b : α) : v2 a b 1 = b := rfl
+
+/-- explicit 3-vector (rows of matrices are vectors too) -/
+def v3 {α : Type} (a b c : α) : Fin 3 → α := fun i => match i with | 0 => a | 1 => b | 2 => c
+@[simp] theorem v3_0 {α : Type} (a b c : α) : v3 a b c 0 = a := rfl
+@[simp] theorem v3_1 {α : Type} (a b c : α) : v3 a b c 1 = b := rfl
+@[simp] theorem v3_2 {α : Type} (a b c : α) : v3 a b c 2 = c := rfl
+
+/-- explicit 4-vector (rows of matrices are vectors too) -/
+def v4 {α : Type} (a b c d : α) : Fin 4 → α := fun i => match i with | 0 => a | 1 => b | 2 => c | 3 => d
+@[simp] theorem v4_0 {α : Type} (a b c d : α) : v4 a b c d 0 = a := rfl
+@[simp] theorem v4_1 {α : Type} (a b c d : α) : v4 a b c d 1 = b := rfl
+@[simp] theorem v4_2 {α : Type} (a b c d : α) : v4 a b c d 2 = c := rfl
+@[simp] theorem v4_3 {α : Type} (a b c d : α) : v4 a b c d 3 = d := rfl
+
+/-- explicit 6-vector (rows of matrices are vectors too) -/
+def v6 {α : Type} (a b c d e f : α) : Fin 6 → α := fun i => match i with | 0 => a | 1 => b | 2 => c | 3 => d | 4 => e | 5 => f
+@[simp] theorem v6_0 {α : Type} (a b c d e f : α) : v6 a b c d e f 0 = a := rfl
+@[simp] theorem v6_1 {α : Type} (a b c d e f : α) : v6 a b c d e f 1 = b := rfl
+@[simp] theorem v6_2 {α : Type} (a b c d e f : α) : v6 a b c d e f 2 = c := rfl
+@[simp] theorem v6_3 {α : Type} (a b c d e f : α) : v6 a b c d e f 3 = d := rfl
+@[simp] theorem v6_4 {α : Type} (a b c d e f : α) : v6 a b c d e f 4 = e := rfl
+@[simp] theorem v6_5 {α : Type} (a b c d e f : α) : v6 a b c d e f 5 = f := rfl
+
 end SmVerif
